@@ -5,7 +5,7 @@
 # SPDX-License-Identifier: BSD-3-Clause
 """ Low-level USB transciever gateware -- control transfer components. """
 
-from amaranth              import Signal, Module, Elaboratable
+from amaranth              import Signal, Module, Elaboratable, Mux
 from usb_protocol.emitters import DeviceDescriptorCollection
 from usb_protocol.types    import USBRequestType
 
@@ -92,8 +92,8 @@ class USBControlEndpoint(Elaboratable):
         """
         tokenizer = self.interface.tokenizer
 
-        # If we receive a SETUP token, always move back to the SETUP stage.
-        with m.If(tokenizer.new_token & tokenizer.is_setup):
+        # If we receive a SETUP token for our endpoint, always move back to the SETUP stage.
+        with m.If(tokenizer.new_token & tokenizer.is_setup & (tokenizer.endpoint == self._endpoint_number)):
             m.next = 'SETUP'
 
 
@@ -134,6 +134,12 @@ class USBControlEndpoint(Elaboratable):
         m.d.comb += [
             interface.data_crc   .connect(setup_decoder.data_crc),
             interface.tokenizer  .connect(setup_decoder.tokenizer),
+
+            # The shared tokenizer reports tokens for every endpoint of the device. A SETUP token for another
+            # endpoint must not be decoded here: it would overwrite the request fields our handlers are working
+            # with. Hide its PID from the decoder; `new_token` still aborts a SETUP transaction of ours.
+            setup_decoder.tokenizer.pid.eq(Mux(
+                interface.tokenizer.endpoint == self._endpoint_number, interface.tokenizer.pid, 0)),
             setup_decoder.speed  .eq(interface.speed),
 
             # And attach our timer interface to both our local users and
